@@ -328,7 +328,8 @@ fn write_frac(nanos: u32, ch: &mut Ch, out: &mut String) {
 }
 
 fn write_datetime(d: &RDt, ch: &mut Ch, out: &mut String) {
-    let local = d.secs + d.offset as i64;
+    let written = zones::written_offset(d.offset);
+    let local = d.secs + written as i64;
     let (y, mo, da, h, mi, s) = civil(local);
     out.push_str(&format!("{y:04}-{mo:02}-{da:02}T{h:02}:{mi:02}:{s:02}"));
     write_frac(d.nanos, ch, out);
@@ -338,7 +339,7 @@ fn write_datetime(d: &RDt, ch: &mut Ch, out: &mut String) {
             out.push_str(" UTC");
         }
     } else {
-        let o = d.offset;
+        let o = written;
         let sign = if o < 0 { '-' } else { '+' };
         let a = o.abs();
         if o == 0 {
@@ -802,11 +803,12 @@ impl<'a> Reader<'a> {
                 if cands.is_empty() {
                     return self.err(&format!("unknown zone {n}"));
                 }
-                match cands.iter().find(|z| zones::offset_at(&z.tz, secs) == offset) {
+                // (the written offset has whole minutes; the zone's own offset may carry seconds before standard time)
+                match cands.iter().find(|z| (zones::offset_at(&z.tz, secs) - offset).abs() < 60) {
                     Some(z) => Ok(RVal::DateTime(RDt {
                         secs,
                         nanos,
-                        offset,
+                        offset: zones::offset_at(&z.tz, secs),
                         city: z.city.clone(),
                         tz: z.id.to_string(),
                     })),
